@@ -523,3 +523,336 @@ Example select_unique_strict_nonvacuous :
   filter (prefix_suffix_sieve ex_ctx false) ex_three = [ex_cand_ctx "p-cm" ["p-"]] /\
   select_referral ex_ctx "cm" ex_three all_names_same = Ok (Some (ex_cand_ctx "p-cm" ["p-"])).
 Proof. repeat split; vm_compute; reflexivity. Qed.
+
+(* ================= progress through the whole transformer, generated table ================= *)
+
+From KV Require Import Res.ProgressProofs.
+
+Lemma gen_refs_follow_transform cs nonstr rules m m' C :
+  effective_rules gen_gvk_order_first gen_gvk_order_last gen_nameref_raw = Ok rules ->
+  mapM (view cs) m = Ok C -> no_empty_prev C = true ->
+  nameref_transform cs nonstr rules m = Ok m' ->
+  forall i r r' org row fs flags cands b a t s old,
+    nth_error m i = Some r -> nth_error m' i = Some r' -> org_id cs r = Ok org ->
+    In row rules -> In fs (nb_referrers row) -> gvk_is_selected (id_gvk org) (fs_gvk fs) = true ->
+    has_suffix "roleRef/name" (fs_path fs) = false ->
+    referencable cs m r = Ok flags -> mapM (view cs) (select_by flags m) = Ok cands ->
+    no_ns_key a -> reaches (path_splitter (fs_path fs)) a (r_node r) = true ->
+    get_addr a (r_node r) = Some (Scalar t s old) -> is_null (Scalar t s old) = false ->
+    filter (name_kind_match (make_ctx cs r (fs_path fs) (nb_gvk row)) old) cands = [b] ->
+    namespace_sieve (make_ctx cs r (fs_path fs) (nb_gvk row)) b = true ->
+    (forall c, In c C -> prev_name_matches old c = true -> c_name c = c_name b) ->
+    (forall c, In c C -> prev_name_matches (c_name b) c = true -> c_name c = c_name b) ->
+    exists t' s', get_addr a (r_node r') = Some (Scalar t' s' (c_name b)).
+Proof.
+  intros Hr HC Hne Hrun i r r' org row fs flags cands b a t s old.
+  intros; eapply (refs_follow_transform cs nonstr rules m m' C); eauto using no_empty_prev_spec.
+  intros b0 f Hb Hf. eapply gen_rule_ok; eauto.
+Qed.
+
+(* non-vacuity: ex_closed_state (ConfigMap cm -> p-cm, a Pod mounting "cm") meets every hypothesis *)
+Definition ex_pod_addr : list astep := [AKey "spec"; AKey "volumes"; AIdx 0; AKey "configMap"; AKey "name"].
+Definition ex_pod_fs : fieldspec := mkFs "" "v1" "Pod" "spec/volumes/configMap/name" false.
+Definition ex_cm_row : nbr := nth 4 gen_rules (mkNbr "" "" "" []).
+Definition ex_pod : resource := nth 1 ex_closed_state (fresh (sc "")).
+Definition ex_flags : list bool := match referencable no_cs ex_closed_state ex_pod with Ok f => f | _ => [] end.
+Definition ex_vis_cands : list cand := unres (mapM (view no_cs) (select_by ex_flags ex_closed_state)).
+Definition ex_b : cand := nth 0 ex_closed_cands ex_cand0.
+
+Example refs_follow_transform_nonvacuous :
+  nb_kind ex_cm_row = "ConfigMap" /\ In ex_cm_row gen_rules /\ In ex_pod_fs (nb_referrers ex_cm_row) /\
+  (exists org, org_id no_cs ex_pod = Ok org /\ gvk_is_selected (id_gvk org) (fs_gvk ex_pod_fs) = true) /\
+  has_suffix "roleRef/name" (fs_path ex_pod_fs) = false /\
+  referencable no_cs ex_closed_state ex_pod = Ok ex_flags /\
+  mapM (view no_cs) (select_by ex_flags ex_closed_state) = Ok ex_vis_cands /\
+  reaches (path_splitter (fs_path ex_pod_fs)) ex_pod_addr (r_node ex_pod) = true /\
+  get_addr ex_pod_addr (r_node ex_pod) = Some (Scalar TStr SPlain "cm") /\
+  filter (name_kind_match (make_ctx no_cs ex_pod (fs_path ex_pod_fs) (nb_gvk ex_cm_row)) "cm") ex_vis_cands = [ex_b] /\
+  namespace_sieve (make_ctx no_cs ex_pod (fs_path ex_pod_fs) (nb_gvk ex_cm_row)) ex_b = true /\
+  c_name ex_b = "p-cm" /\
+  forallb (fun c => negb (prev_name_matches "cm" c) || String.eqb (c_name c) "p-cm") ex_closed_cands = true /\
+  forallb (fun c => negb (prev_name_matches "p-cm" c) || String.eqb (c_name c) "p-cm") ex_closed_cands = true.
+Proof.
+  split; [vm_compute; reflexivity|]. split; [vm_compute; tauto|]. split; [vm_compute; tauto|].
+  split; [eexists; split; vm_compute; reflexivity|].
+  repeat split; vm_compute; reflexivity.
+Qed.
+
+(* ================= from the layering to the unambiguity hypotheses ================= *)
+
+(* a resource of the map, where it came from: a fresh well formed document and the renaming transformers
+   its layers ran on it (comma free arguments) *)
+Definition produced (cs : string -> string -> bool) (nonstr : string -> bool)
+           (p : resource * list rename_step) (r : resource) : Prop :=
+  wf_res (fst p) /\ ptriples (fst p) = [] /\ forallb step_ok (snd p) = true /\
+  gen_apply_steps cs nonstr (snd p) (fst p) = Ok r.
+
+(* the original name and what the layers may have made of it *)
+Definition may_have_been (p : resource * list rename_step) (v : string) : bool :=
+  ever_named (snd p) (get_name (r_node (fst p))) v.
+
+Lemma produced_names cs nonstr p r c :
+  produced cs nonstr p r -> view cs r = Ok c ->
+  (forall v, prev_name_matches v c = true -> may_have_been p v = true) /\ may_have_been p (c_name c) = true.
+Proof.
+  intros (Hw & Hf & Hok & Hrun) Hv.
+  pose proof (history_prefix cs nonstr _ _ _ _ _ gen_prefix_table gen_suffix_table gen_namespace_table_ok
+                             _ _ _ Hok Hw Hrun) as ([Hh' Hw'] & _).
+  destruct (prev_ids_triples r Hh') as (p0 & Hp & Hpt).
+  unfold view in Hv. rewrite Hp in Hv. cbn [bind] in Hv. inv Hv. cbn [c_prev c_name].
+  assert (Hall: forall v, In v (hist_names cs r) -> may_have_been p v = true).
+  { intros v Hin. eapply (fresh_names cs nonstr); eauto using gen_prefix_table, gen_suffix_table, gen_namespace_table_ok. }
+  split.
+  - intros v Hm. apply Hall. unfold prev_name_matches in Hm. cbn [c_prev] in Hm.
+    apply existsb_exists in Hm as (id & Hin & He). apply String.eqb_eq in He. subst v.
+    unfold hist_names, history. rewrite map_app. apply in_or_app. left. rewrite <- Hpt, map_map.
+    apply in_map_iff. exists id. split; [reflexivity|assumption].
+  - apply Hall. unfold hist_names, history. rewrite map_app. apply in_or_app. right. left. reflexivity.
+Qed.
+
+Lemma Forall2_nth_r {A B} (R : A -> B -> Prop) l l' k y :
+  Forall2 R l l' -> nth_error l' k = Some y -> exists x, nth_error l k = Some x /\ R x y.
+Proof.
+  intros H. revert k. induction H as [|a b l l' Hab Hl IH]; intros [|k] Hn; cbn in *; try discriminate.
+  - inv Hn. eauto.
+  - eauto.
+Qed.
+
+Lemma mapM_nth_r {A B} (f : A -> res B) l l' k y :
+  mapM f l = Ok l' -> nth_error l' k = Some y -> exists x, nth_error l k = Some x /\ f x = Ok y.
+Proof.
+  revert l' k. induction l as [|a t IH]; intros l' k H Hn; cbn [mapM] in H.
+  - inv H. destruct k; discriminate.
+  - destruct (f a) as [b| | |] eqn:Fa; cbn [bind] in H; try discriminate.
+    destruct (mapM f t) as [t'| | |] eqn:Ft; cbn [bind] in H; try discriminate. inv H.
+    destruct k as [|k]; cbn in *; [inv Hn; eauto|eauto].
+Qed.
+
+Lemma mapM_select {A B} (f : A -> res B) flags l all :
+  mapM f l = Ok all -> mapM f (select_by flags l) = Ok (select_by flags all).
+Proof.
+  revert l all. induction flags as [|fl flags IH]; intros l all H; [reflexivity|].
+  destruct l as [|a l]; cbn [mapM] in H.
+  - inv H. destruct fl; reflexivity.
+  - destruct (f a) as [b| | |] eqn:Fa; cbn [bind] in H; try discriminate.
+    destruct (mapM f l) as [bs| | |] eqn:Fl; cbn [bind] in H; try discriminate. inv H.
+    destruct fl; cbn [select_by mapM]; [rewrite Fa; cbn [bind]|]; rewrite (IH l bs Fl); reflexivity.
+Qed.
+
+Lemma filter_select_single {A} (P : A -> bool) : forall j flags (l : list A) b,
+  nth_error l j = Some b -> nth_error flags j = Some true -> P b = true ->
+  (forall k c, k <> j -> nth_error l k = Some c -> P c = false) ->
+  filter P (select_by flags l) = [b].
+Proof.
+  assert (Hnone: forall flags (l : list A), (forall k c, nth_error l k = Some c -> P c = false) ->
+                                            filter P (select_by flags l) = []).
+  { induction flags as [|fl flags IH]; intros l H; [reflexivity|].
+    destruct l as [|a l]; [destruct fl; reflexivity|].
+    assert (Hl: forall k c, nth_error l k = Some c -> P c = false) by (intros k c Hk; apply (H (S k)); exact Hk).
+    destruct fl; cbn [select_by filter]; [rewrite (H 0 a eq_refl)|]; apply IH; assumption. }
+  induction j as [|j IH]; intros flags l b Hb Hf HP Hother.
+  - destruct l as [|a l]; [discriminate|]. destruct flags as [|fl flags]; [discriminate|].
+    cbn in Hb, Hf. inv Hb. inv Hf. cbn [select_by filter]. rewrite HP. f_equal.
+    apply Hnone. intros k c Hk. apply (Hother (S k)); [discriminate|exact Hk].
+  - destruct l as [|a l]; [discriminate|]. destruct flags as [|fl flags]; [discriminate|].
+    cbn in Hb, Hf.
+    assert (Ha: P a = false) by (apply (Hother 0); [discriminate|reflexivity]).
+    assert (Hrest: filter P (select_by flags l) = [b]).
+    { apply IH; auto. intros k c Hk Hc. apply (Hother (S k)); [congruence|exact Hc]. }
+    destruct fl; cbn [select_by filter]; [rewrite Ha|]; exact Hrest.
+Qed.
+
+Section Layering.
+  Variable cs : string -> string -> bool.
+  Variable nonstr : string -> bool.
+  (* provenance of every resource of the map just before FixBackReferences *)
+  Variables (prov : list (resource * list rename_step)) (m : list resource) (C : list cand).
+  Hypothesis Hprov : Forall2 (produced cs nonstr) prov m.
+  Hypothesis HC : mapM (view cs) m = Ok C.
+  (* the referent: position, provenance, view; [old] is its ORIGINAL name *)
+  Variables (j : nat) (pb : resource * list rename_step) (b : cand).
+  Hypothesis Hpb : nth_error prov j = Some pb.
+  Hypothesis Hb : nth_error C j = Some b.
+  Let old := get_name (r_node (fst pb)).
+  (* no OTHER resource may ever have been called like the referent originally, nor like it is called now *)
+  Hypothesis others :
+    forall k p, k <> j -> nth_error prov k = Some p ->
+                may_have_been p old = false /\ may_have_been p (c_name b) = false.
+
+  Lemma other_views k c : k <> j -> nth_error C k = Some c ->
+    prev_name_matches old c = false /\ prev_name_matches (c_name b) c = false.
+  Proof.
+    intros Hk Hc.
+    destruct (mapM_nth_r _ _ _ _ _ HC Hc) as (r & Hr & Hv).
+    destruct (Forall2_nth_r _ _ _ _ _ Hprov Hr) as (p & Hp & Hprod).
+    destruct (produced_names _ _ _ _ _ Hprod Hv) as [Hnames _].
+    destruct (others k p Hk Hp) as [O1 O2].
+    split.
+    - destruct (prev_name_matches old c) eqn:E; [|reflexivity]. rewrite (Hnames _ E) in O1. discriminate.
+    - destruct (prev_name_matches (c_name b) c) eqn:E; [|reflexivity]. rewrite (Hnames _ E) in O2. discriminate.
+  Qed.
+
+  (* the closedness hypotheses of the transformer-level theorem *)
+  Lemma layering_closed :
+    (forall c, In c C -> prev_name_matches old c = true -> c_name c = c_name b) /\
+    (forall c, In c C -> prev_name_matches (c_name b) c = true -> c_name c = c_name b).
+  Proof.
+    split; intros c Hin Hm; apply In_nth_error in Hin as (k & Hk);
+      (destruct (Nat.eq_dec k j) as [->|Hne]; [rewrite Hb in Hk; now inv Hk|]);
+      destruct (other_views k c Hne Hk) as [O1 O2]; congruence.
+  Qed.
+
+  (* ... and its uniqueness hypothesis, for any set of visible candidates that contains the referent *)
+  Lemma layering_unique flags cands x :
+    mapM (view cs) (select_by flags m) = Ok cands -> nth_error flags j = Some true ->
+    name_kind_match x old b = true ->
+    filter (name_kind_match x old) cands = [b].
+  Proof.
+    intros Hsub Hflag Hmatch.
+    rewrite (mapM_select _ flags _ _ HC) in Hsub. inv Hsub.
+    apply (filter_select_single _ j); auto.
+    intros k c Hk Hc. destruct (other_views k c Hk Hc) as [O1 _].
+    unfold name_kind_match. rewrite O1. reflexivity.
+  Qed.
+End Layering.
+
+(* non-vacuity of the layering lemma: a ConfigMap and a Pod mounting it, one layer with namePrefix p- *)
+Definition ex_prov : list (resource * list rename_step) :=
+  [ (fresh (doc "v1" "ConfigMap" "cm" []), [SPrefix "p-"]);
+    (fresh (doc "v1" "Pod" "pod" [("spec", Map [("volumes", Seq [Map [("configMap", Map [("name", sc "cm")])]])])]),
+     [SPrefix "p-"]) ].
+Definition ex_prov_out : list resource :=
+  map (fun p => match gen_apply_steps no_cs no_nonstr (snd p) (fst p) with Ok r => r | _ => fst p end) ex_prov.
+
+Lemma wf_fresh_doc av kind name extra :
+  good name = true -> good kind = true ->
+  wf_res (fresh (doc av kind name extra)).
+Proof.
+  intros Hn Hk. split; [exact I|].
+  exists ([("apiVersion", sc av); ("kind", sc kind); ("metadata", Map [("name", sc name)])] ++ extra)%list,
+         [("name", sc name)], TStr, SPlain, name, (sc kind).
+  repeat split; try reflexivity; try assumption. discriminate.
+Qed.
+
+Example layering_nonvacuous :
+  Forall2 (produced no_cs no_nonstr) ex_prov ex_prov_out /\
+  (exists C b, mapM (view no_cs) ex_prov_out = Ok C /\ nth_error C 0 = Some b /\ c_name b = "p-cm" /\
+     forall k p, k <> 0 -> nth_error ex_prov k = Some p ->
+                 may_have_been p "cm" = false /\ may_have_been p (c_name b) = false).
+Proof.
+  split.
+  - repeat constructor; cbn [fst snd]; try (apply wf_fresh_doc; reflexivity); vm_compute; reflexivity.
+  - exists (unres (mapM (view no_cs) ex_prov_out)), (nth 0 (unres (mapM (view no_cs) ex_prov_out)) ex_cand0).
+    split; [vm_compute; reflexivity|]. split; [vm_compute; reflexivity|]. split; [vm_compute; reflexivity|].
+    intros [|[|k]] p Hk Hp; [contradiction| |destruct k; discriminate].
+    cbn in Hp. inv Hp. split; vm_compute; reflexivity.
+Qed.
+
+(* ================= build level: layering -> renames -> FixBackReferences ================= *)
+
+From KV Require Import Res.BuildProofs.
+
+(* a leaf of the layering: a fresh well formed document; the directives on its way are comma free *)
+Definition leaf_ok (p : resource * list rename_step) : Prop :=
+  wf_res (fst p) /\ ptriples (fst p) = [] /\ forallb step_ok (snd p) = true.
+
+Definition gen_build_names (cs : string -> string -> bool) (nonstr : string -> bool) :=
+  build_names cs nonstr gen_name_prefix_fs gen_name_suffix_fs gen_namespace_fs gen_prefix_skip gen_suffix_skip.
+
+Lemma came_from_produced cs nonstr prov m :
+  Forall2 (came_from cs nonstr gen_name_prefix_fs gen_name_suffix_fs gen_namespace_fs gen_prefix_skip gen_suffix_skip) prov m ->
+  Forall leaf_ok prov -> Forall2 (produced cs nonstr) prov m.
+Proof.
+  induction 1 as [|p r prov m' Hp Hm IH]; intros Hok; [constructor|].
+  pose proof (Forall_inv Hok) as (W & F & S). constructor; [|apply IH; eapply Forall_inv_tail; eauto].
+  split; [exact W|]. split; [exact F|]. split; [exact S|exact Hp].
+Qed.
+
+Lemma build_produced cs nonstr l hs m :
+  gen_build_names cs nonstr l hs = Ok m -> Forall leaf_ok (build_prov l hs) ->
+  Forall2 (produced cs nonstr) (build_prov l hs) m.
+Proof.
+  intros H Hok. apply came_from_produced; [|assumption].
+  exact (build_names_prov _ _ _ _ _ _ _ _ _ _ H).
+Qed.
+
+Lemma build_refs_split cs nonstr l hs out :
+  build_refs cs nonstr gen_name_prefix_fs gen_name_suffix_fs gen_namespace_fs gen_prefix_skip gen_suffix_skip
+             gen_gvk_order_first gen_gvk_order_last gen_nameref_raw l hs = Ok out ->
+  exists m rules, gen_build_names cs nonstr l hs = Ok m /\
+                  effective_rules gen_gvk_order_first gen_gvk_order_last gen_nameref_raw = Ok rules /\
+                  nameref_transform cs nonstr rules m = Ok out.
+Proof.
+  unfold build_refs, gen_build_names. intros H.
+  destruct (build_names _ _ _ _ _ _ _ l hs) as [m| | |]; cbn [bind] in H; try discriminate.
+  destruct (effective_rules _ _ _) as [rules| | |]; cbn [bind] in H; try discriminate. eauto.
+Qed.
+
+(* The build-level statement, proved part: layering -> renames -> hash -> FixBackReferences. *)
+Lemma refs_follow_build cs nonstr l hs m rules out C :
+  gen_build_names cs nonstr l hs = Ok m ->
+  effective_rules gen_gvk_order_first gen_gvk_order_last gen_nameref_raw = Ok rules ->
+  nameref_transform cs nonstr rules m = Ok out ->
+  Forall leaf_ok (build_prov l hs) -> mapM (view cs) m = Ok C -> no_empty_prev C = true ->
+  forall i r r' org row fs flags cands j pb b a t s,
+    nth_error m i = Some r -> nth_error out i = Some r' -> org_id cs r = Ok org ->
+    In row rules -> In fs (nb_referrers row) -> gvk_is_selected (id_gvk org) (fs_gvk fs) = true ->
+    has_suffix "roleRef/name" (fs_path fs) = false ->
+    referencable cs m r = Ok flags -> mapM (view cs) (select_by flags m) = Ok cands ->
+    no_ns_key a -> reaches (path_splitter (fs_path fs)) a (r_node r) = true ->
+    get_addr a (r_node r) = Some (Scalar t s (get_name (r_node (fst pb)))) ->
+    is_null (Scalar t s (get_name (r_node (fst pb)))) = false ->
+    nth_error (build_prov l hs) j = Some pb -> nth_error C j = Some b -> nth_error flags j = Some true ->
+    name_kind_match (make_ctx cs r (fs_path fs) (nb_gvk row)) (get_name (r_node (fst pb))) b = true ->
+    namespace_sieve (make_ctx cs r (fs_path fs) (nb_gvk row)) b = true ->
+    (forall k p, k <> j -> nth_error (build_prov l hs) k = Some p ->
+                 may_have_been p (get_name (r_node (fst pb))) = false /\ may_have_been p (c_name b) = false) ->
+    exists t' s', get_addr a (r_node r') = Some (Scalar t' s' (c_name b)).
+Proof.
+  intros Hm Hrules Hrun Hleaves HC Hne i r r' org row fs flags cands j pb b a t s.
+  intros Hr Hr' Horg Hrow Hfs Hsel Hnr Hflags Hcands Hns Hreach Hg Hnn Hpb Hb Hflag Hmatch Hvis Hothers.
+  pose proof (build_produced cs nonstr l hs m Hm Hleaves) as Hprov.
+  destruct (layering_closed cs nonstr _ _ _ Hprov HC j pb b Hb Hothers) as [Hc1 Hc2].
+  pose proof (layering_unique cs nonstr _ _ _ Hprov HC j pb b Hb Hothers flags cands _ Hcands Hflag Hmatch) as Hu.
+  eapply (gen_refs_follow_transform cs nonstr rules m out C Hrules HC Hne Hrun); eauto.
+Qed.
+
+(* non-vacuity of the build-level theorem: one kustomization, namePrefix p-, a ConfigMap and a Pod mounting it *)
+Definition ex_layer : layer :=
+  Layer "" "p-" "" [IRes (fresh (doc "v1" "ConfigMap" "cm" []));
+                    IRes (fresh (doc "v1" "Pod" "pod" [("spec", Map [("volumes", Seq [Map [("configMap", Map [("name", sc "cm")])]])])]))].
+Definition ex_hs : list string := [""; ""].
+Definition ex_m : list resource := unres (gen_build_names no_cs no_nonstr ex_layer ex_hs).
+Definition ex_out : list resource := unres (nameref_transform no_cs no_nonstr gen_rules ex_m).
+Definition ex_C : list cand := unres (mapM (view no_cs) ex_m).
+Definition ex_r : resource := nth 1 ex_m (fresh (sc "")).
+Definition ex_fl : list bool := match referencable no_cs ex_m ex_r with Ok f => f | _ => [] end.
+
+Example refs_follow_build_nonvacuous :
+  gen_build_names no_cs no_nonstr ex_layer ex_hs = Ok ex_m /\
+  nameref_transform no_cs no_nonstr gen_rules ex_m = Ok ex_out /\
+  Forall leaf_ok (build_prov ex_layer ex_hs) /\
+  mapM (view no_cs) ex_m = Ok ex_C /\ no_empty_prev ex_C = true /\
+  referencable no_cs ex_m ex_r = Ok ex_fl /\ nth_error ex_fl 0 = Some true /\
+  reaches (path_splitter (fs_path ex_pod_fs)) ex_pod_addr (r_node ex_r) = true /\
+  get_addr ex_pod_addr (r_node ex_r) = Some (Scalar TStr SPlain "cm") /\
+  (exists pb b, nth_error (build_prov ex_layer ex_hs) 0 = Some pb /\ get_name (r_node (fst pb)) = "cm" /\
+                nth_error ex_C 0 = Some b /\ c_name b = "p-cm" /\
+                name_kind_match (make_ctx no_cs ex_r (fs_path ex_pod_fs) (nb_gvk ex_cm_row)) "cm" b = true /\
+                namespace_sieve (make_ctx no_cs ex_r (fs_path ex_pod_fs) (nb_gvk ex_cm_row)) b = true /\
+                forall k p, k <> 0 -> nth_error (build_prov ex_layer ex_hs) k = Some p ->
+                            may_have_been p "cm" = false /\ may_have_been p (c_name b) = false) /\
+  option_map (fun r => get_addr ex_pod_addr (r_node r)) (nth_error ex_out 1) = Some (Some (Scalar TNone SPlain "p-cm")).
+Proof.
+  split; [vm_compute; reflexivity|]. split; [vm_compute; reflexivity|].
+  split; [repeat constructor; cbn [fst snd]; try (apply wf_fresh_doc; reflexivity); reflexivity|].
+  split; [vm_compute; reflexivity|]. split; [vm_compute; reflexivity|].
+  split; [vm_compute; reflexivity|]. split; [vm_compute; reflexivity|].
+  split; [vm_compute; reflexivity|]. split; [vm_compute; reflexivity|].
+  split; [|vm_compute; reflexivity].
+  exists (nth 0 (build_prov ex_layer ex_hs) (fresh (sc ""), [])), (nth 0 ex_C ex_cand0).
+  split; [vm_compute; reflexivity|]. split; [vm_compute; reflexivity|]. split; [vm_compute; reflexivity|].
+  split; [vm_compute; reflexivity|]. split; [vm_compute; reflexivity|]. split; [vm_compute; reflexivity|].
+  intros [|[|k]] p Hk Hp; [contradiction| |destruct k; discriminate].
+  vm_compute in Hp. inv Hp. split; vm_compute; reflexivity.
+Qed.
